@@ -15,6 +15,7 @@ import (
 	"context"
 	"fmt"
 	"sync"
+	"sync/atomic"
 	"testing"
 	"time"
 
@@ -45,8 +46,13 @@ type c14Out struct {
 	Events    []c14Event `json:"events"`
 	FinalPeek int        `json:"final_peek"`
 	FinalLen  int        `json:"final_len"`
+	Hung      bool       `json:"hung,omitempty"` // the actor did not become idle after a message: case abandoned
+	HungMsg   int        `json:"hung_msg"`
+	Skipped   bool       `json:"skipped,omitempty"`
 	Err       string     `json:"err,omitempty"`
 }
+
+var c14Hung atomic.Int32
 
 type c14Msg struct {
 	Idx int
@@ -117,7 +123,7 @@ func (a *c14Actor) handle(k int, ctx *ReceiveContext) {
 // message is enqueued and the actor scheduled, so "idle and empty" after Tell means the message has
 // been taken (handled, or skipped because no behaviour was installed).
 func c14Quiesce(pid *PID) error {
-	deadline := time.Now().Add(30 * time.Second)
+	deadline := time.Now().Add(time.Duration(verifEnvInt("VERIF_C14_PATIENCE_MS", 10000)) * time.Millisecond)
 	for i := 0; ; i++ {
 		if pid.mailbox.IsEmpty() && pid.systemMailbox.IsEmpty() && pid.schedState.Load() == dispatchIdle {
 			return nil
@@ -145,17 +151,31 @@ func c14System(t *testing.T, name string) ActorSystem {
 }
 
 func c14RunCase(ctx context.Context, sys ActorSystem, c c14Case) c14Out {
-	out := c14Out{ID: c.ID, FinalPeek: -3}
+	out := c14Out{ID: c.ID, FinalPeek: -3, HungMsg: -1}
+	if c14Hung.Load() >= 2 {
+		out.Skipped = true
+		return out
+	}
 	a := &c14Actor{}
 	pid, err := sys.Spawn(ctx, fmt.Sprintf("c14-%d", c.ID), a)
 	if err != nil {
 		out.Err = "spawn: " + err.Error()
 		return out
 	}
-	defer func() { _ = pid.Shutdown(ctx) }()
-	if err := c14Quiesce(pid); err != nil {
-		out.Err = err.Error()
+	collect := func() {
+		a.mu.Lock()
+		out.Events = append([]c14Event(nil), a.events...)
+		a.mu.Unlock()
+	}
+	hang := func(i int) c14Out {
+		// abandon the case: nothing waits for an actor that may be stuck
+		out.Hung, out.HungMsg = true, i
+		c14Hung.Add(1)
+		collect()
 		return out
+	}
+	if err := c14Quiesce(pid); err != nil {
+		return hang(-1)
 	}
 	for i, ops := range c.Msgs {
 		if err := Tell(ctx, pid, &c14Msg{Idx: i, Ops: ops}); err != nil {
@@ -164,19 +184,17 @@ func c14RunCase(ctx context.Context, sys ActorSystem, c c14Case) c14Out {
 		}
 		if c.Mode != "batch" {
 			if err := c14Quiesce(pid); err != nil {
-				out.Err = err.Error()
-				break
+				return hang(i)
 			}
 		}
 	}
-	if err := c14Quiesce(pid); err != nil && out.Err == "" {
-		out.Err = err.Error()
+	if err := c14Quiesce(pid); err != nil {
+		return hang(len(c.Msgs) - 1)
 	}
-	a.mu.Lock()
-	out.Events = append([]c14Event(nil), a.events...)
-	a.mu.Unlock()
+	collect()
 	out.FinalPeek = c14PeekID(pid)
 	out.FinalLen = pid.behaviorStack.Len()
+	_ = pid.Shutdown(ctx)
 	return out
 }
 
@@ -186,7 +204,11 @@ func TestVerifC14Behaviors(t *testing.T) {
 	defer w.close()
 	ctx := context.Background()
 	sys := c14System(t, "verifC14")
-	defer func() { _ = sys.Stop(ctx) }()
+	defer func() {
+		if c14Hung.Load() == 0 {
+			_ = sys.Stop(ctx)
+		}
+	}()
 
 	// cases are independent actors: run a few at a time
 	const par = 8
